@@ -60,11 +60,11 @@ Proof.
   intros H. unfold zdiffs. rewrite <- tab_const. apply tab_ext. intros i Hi. apply H. lia.
 Qed.
 
-Lemma median_step_regular D ts :
-  regular_ns (D * NS) ts -> (2 <= length ts)%nat -> median_step ts = D.
+Lemma median_step_regular d ts :
+  regular_ns d ts -> (2 <= length ts)%nat -> median_step ts = d.
 Proof.
   intros H Hn. unfold median_step. rewrite (zdiffs_regular _ _ H).
-  rewrite zmedian_repeat by lia. unfold secs. apply Z.div_mul. unfold NS. lia.
+  apply zmedian_repeat. lia.
 Qed.
 
 (* time-shift invariance of the step *)
@@ -89,7 +89,36 @@ Proof.
   apply Z.quot_div_nonneg; lia.
 Qed.
 
-(* truncating the threshold to whole seconds first does not change the count *)
+Lemma step_q_pos d : (0 < d)%Z -> 0 < step_q d.
+Proof.
+  intros H. unfold step_q. apply Qlt_shift_div_l; [reflexivity|]. rewrite Qmult_0_l.
+  change 0 with (inject_Z 0). rewrite <- Zlt_Qlt. exact H.
+Qed.
+
+Lemma quot_nonneg thr D : 0 <= thr -> 0 < D -> 0 <= thr / D.
+Proof.
+  intros Ht HD. unfold Qdiv. apply Qmult_le_0_compat; [exact Ht|].
+  apply Qlt_le_weak, Qinv_lt_0_compat, HD.
+Qed.
+
+(* the source's count is the property's k, for every positive step (whole seconds or not) *)
+Lemma count_of_floor thr d :
+  0 <= thr -> (0 < d)%Z -> count_of thr d = Qfloor (thr / step_q d).
+Proof.
+  intros Ht Hd. unfold count_of. apply qtrunc_nonneg. apply quot_nonneg; [exact Ht|apply step_q_pos; exact Hd].
+Qed.
+
+Lemma count_of_nonneg thr d : 0 <= thr -> (0 < d)%Z -> (0 <= count_of thr d)%Z.
+Proof.
+  intros Ht Hd. rewrite count_of_floor by assumption.
+  rewrite <- (Qfloor_Z 0). apply Qfloor_resp_le. apply quot_nonneg; [exact Ht|apply step_q_pos; exact Hd].
+Qed.
+
+Lemma count_of_kof thr d : 0 <= thr -> (0 < d)%Z -> Z.to_nat (count_of thr d) = kof thr (step_q d).
+Proof. intros Ht Hd. unfold kof. rewrite count_of_floor by assumption. reflexivity. Qed.
+
+(* on whole-second steps, truncating the threshold to whole seconds first would not change the count
+   (the code did that before F18 was repaired; kept as a fact about floors) *)
 Lemma floor_floor thr D :
   (1 <= D)%Z -> Qfloor (inject_Z (Qfloor thr) / inject_Z D) = Qfloor (thr / inject_Z D).
 Proof.
@@ -97,34 +126,6 @@ Proof.
   unfold Qdiv, Qmult, Qinv, inject_Z, Qfloor. simpl.
   rewrite !Z.mul_1_r, Pos2Z.inj_mul. simpl. apply Z.div_div; lia.
 Qed.
-
-Lemma Qfloor_div_Z a D : (1 <= D)%Z -> Qfloor (inject_Z a / inject_Z D) = (a / D)%Z.
-Proof.
-  intros HD. destruct D as [|d|d]; try lia.
-  unfold Qdiv, Qmult, Qinv, inject_Z, Qfloor. simpl. rewrite Z.mul_1_r. reflexivity.
-Qed.
-
-(* the source's count is the property's k on whole-second steps *)
-Lemma count_of_floor thr D :
-  0 <= thr -> (1 <= D)%Z -> count_of thr D = Qfloor (thr / inject_Z D).
-Proof.
-  intros Ht HD. unfold count_of. rewrite qtrunc_nonneg by exact Ht.
-  rewrite <- floor_floor by exact HD. rewrite Qfloor_div_Z by exact HD.
-  assert (0 <= Qfloor thr)%Z.
-  { rewrite <- (Qfloor_Z 0). apply Qfloor_resp_le. exact Ht. }
-  apply Z.quot_div_nonneg; lia.
-Qed.
-
-Lemma count_of_nonneg thr D : 0 <= thr -> (1 <= D)%Z -> (0 <= count_of thr D)%Z.
-Proof.
-  intros Ht HD. unfold count_of. rewrite qtrunc_nonneg by exact Ht.
-  assert (0 <= Qfloor thr)%Z.
-  { rewrite <- (Qfloor_Z 0). apply Qfloor_resp_le. exact Ht. }
-  rewrite Z.quot_div_nonneg by lia. apply Z.div_pos; lia.
-Qed.
-
-Lemma count_of_kof thr D : 0 <= thr -> (1 <= D)%Z -> Z.to_nat (count_of thr D) = kof thr (inject_Z D).
-Proof. intros Ht HD. unfold kof. rewrite count_of_floor by assumption. reflexivity. Qed.
 
 (* shorter duration, not larger count *)
 Lemma kof_mono thr thr' D : 0 < D -> thr' <= thr -> (kof thr' D <= kof thr D)%nat.
@@ -359,12 +360,12 @@ Proof.
     destruct (missing_at xs j); discriminate.
 Qed.
 
-(* C11 on its domain: regular axis with a whole number D >= 1 of seconds per step, non-negative
-   durations, any length.  (Steps that are not whole seconds: flat_fractional_refuted.) *)
-Theorem flat_refines D st ft tol xs ts :
-  regular_ns (D * NS) ts -> (1 <= D)%Z -> length ts = length xs ->
+(* C11 on its domain: regular axis with ANY positive step d (nanoseconds; D = d / 10^9 seconds, whole or
+   fractional, sub-second included), non-negative durations, any length. *)
+Theorem flat_refines d st ft tol xs ts :
+  regular_ns d ts -> (0 < d)%Z -> length ts = length xs ->
   0 <= st -> 0 <= ft ->
-  flat_model st ft tol xs ts = flat_spec (inject_Z D) st ft tol xs.
+  flat_model st ft tol xs ts = flat_spec (step_q d) st ft tol xs.
 Proof.
   intros Hreg HD Hlen Hst Hft.
   destruct (Nat.ltb_spec (length xs) 3) as [Hn|Hn].
@@ -373,34 +374,34 @@ Proof.
     destruct (Nat.ltb_spec (length xs) 3); [|lia]. destruct (getq xs i); reflexivity.
   - unfold flat_model, flat_spec.
     destruct (Nat.ltb_spec (length xs) 3) as [H|_]; [lia|].
-    rewrite (median_step_regular D ts Hreg) by lia.
-    destruct (Z.eqb_spec D 0) as [H|_]; [lia|].
-    pose proof (count_of_nonneg st D Hst HD) as Hcs. pose proof (count_of_nonneg ft D Hft HD) as Hcf.
-    destruct (Z.ltb_spec (count_of st D) 0) as [H|_]; [lia|].
-    destruct (Z.ltb_spec (count_of ft D) 0) as [H|_]; [lia|]. simpl orb. cbv iota.
+    rewrite (median_step_regular d ts Hreg) by lia.
+    destruct (Z.eqb_spec d 0) as [H|_]; [lia|].
+    pose proof (count_of_nonneg st d Hst HD) as Hcs. pose proof (count_of_nonneg ft d Hft HD) as Hcf.
+    destruct (Z.ltb_spec (count_of st d) 0) as [H|_]; [lia|].
+    destruct (Z.ltb_spec (count_of ft d) 0) as [H|_]; [lia|]. simpl orb. cbv iota.
     rewrite !count_of_kof by assumption. rewrite !run_test_tab. tabs.
     f_equal. apply tab_ext. intros i Hi. unfold flat_flag, flat_pt, flat_ptk, missing_at.
     destruct (Nat.ltb_spec (length xs) 3); [lia|].
     destruct (getq xs i); reflexivity.
 Qed.
 
-(* deviation: the step is floored to whole seconds before the thresholds are divided by it.
-   Regular axis with step 1.5 s, suspect duration 3 s: the property's k is floor(3 / 1.5) = 2,
-   the code uses 3 / 1 = 3. *)
-Lemma flat_fractional_refuted :
-  exists D st ft tol xs ts,
-    regular_ns 1500000000 ts /\ D * inject_Z NS == 1500000000 # 1 /\ length ts = length xs /\
-    (3 <= length xs)%nat /\ 0 <= st /\ 0 <= ft /\
-    flat_model st ft tol xs ts = Flags [GOOD; GOOD; GOOD; SUSPECT] /\
-    flat_spec D st ft tol xs = Flags [GOOD; GOOD; SUSPECT; SUSPECT].
+(* whole seconds: the step in seconds is the integer *)
+Lemma step_q_whole D : step_q (D * NS) == inject_Z D.
 Proof.
-  exists (3 # 2), 3, 100, (1 # 2), [Some 1; Some 1; Some 1; Some 1],
-         [0; 1500000000; 3000000000; 4500000000]%Z.
-  repeat split; try (vm_compute; congruence).
-  - intros i Hi. simpl in Hi.
-    destruct i as [|[|[|i]]]; try reflexivity; lia.
-  - simpl. lia.
+  unfold step_q. rewrite inject_Z_mult. field. unfold NS. discriminate.
 Qed.
+
+(* the witnesses of the former deviation F18 (step floored to whole seconds): step 1.5 s, suspect duration 3 s:
+   k = floor(3 / 1.5) = 2, and a sub-second step 0.25 s on which the code used to divide by zero *)
+Example flat_fractional_ok :
+  flat_model 3 100 (1 # 2) [Some 1; Some 1; Some 1; Some 1] [0; 1500000000; 3000000000; 4500000000]%Z
+  = Flags [GOOD; GOOD; SUSPECT; SUSPECT].
+Proof. vm_compute. reflexivity. Qed.
+
+Example flat_subsecond_ok :
+  flat_model (1 # 2) 1 (1 # 2) [Some 1; Some 1; Some 1; Some 1; Some 1] [0; 250000000; 500000000; 750000000; 1000000000]%Z
+  = Flags [GOOD; GOOD; SUSPECT; SUSPECT; FAIL].
+Proof. vm_compute. reflexivity. Qed.
 
 (* ---------------------------------------------------------------- decision list (C11) *)
 
